@@ -34,6 +34,8 @@ type Obligation struct {
 }
 
 type Engine struct {
+	curDirect     bool     // the function being verified carries the run's own property tag (not only the borrowed one)
+	alsoProp      string   // contracts and clauses of this property are part of the run as well (C14 runs over the C10 contracts)
 	noInv         []string // parameters of the function being verified that are exempt from type invariants
 	catClosedMemo map[string]bool
 	repo          string
@@ -262,7 +264,7 @@ func (e *Engine) ContractsFor(prop string) []*Contract {
 	var out []*Contract
 	for _, c := range e.cs.Contracts {
 		for _, p := range c.Props {
-			if p == prop {
+			if p == prop || (e.alsoProp != "" && p == e.alsoProp) {
 				out = append(out, c)
 				break
 			}
@@ -287,6 +289,11 @@ func (e *Engine) LemmasFor(prop string) []*Lemma {
 }
 
 func (e *Engine) addObl(o *Obligation) {
+	// a run that borrows the contracts of another property (C14 over the C10 contracts) keeps, for the borrowed
+	// functions, only the obligations it is about (confinement and lock discipline); the borrowed property proves the rest
+	if e.alsoProp != "" && !e.curDirect && o.Kind != "confine" && o.Kind != "lock" {
+		return
+	}
 	e.obls = append(e.obls, o)
 }
 
@@ -296,7 +303,7 @@ func (e *Engine) applies(c *Clause) bool {
 		return true
 	}
 	for _, p := range c.Props {
-		if p == e.prop {
+		if p == e.prop || (e.alsoProp != "" && p == e.alsoProp) {
 			return true
 		}
 	}
